@@ -34,10 +34,23 @@ LOGLIN = zoo.ZModel(
 
 
 def _zm(name):
+    if name.endswith("_det"):
+        # the same model created with deterministic=True (no std parameters): plans must work on it like on any other model
+        import copy
+        z = copy.copy(zoo.by_name(name[:-4]))
+        z.name = name
+        return z
     return LOGLIN if name == "loglin" else zoo.by_name(name)
 
 
 def _build(ir, zm):
+    if zm.name.endswith("_det"):
+        m = ir.Simultaneous.from_string(zm.source(), linear=zm.linear, deterministic=True)
+        if zm.params:
+            m.assign(**zm.float_params())
+        m.steady()
+        m.solve()
+        return m
     if zm.name == "loglin":
         import contextlib, io
         with contextlib.redirect_stdout(io.StringIO()):
@@ -239,12 +252,21 @@ def _run_plan(ir, zm, m, nsim, spec, override=None, values=None):
     plan = _apply_plan(ir, m, span, start, db, spec, values=values)
     multi = bool(spec.get("multi"))
     with fo.FirstOrderLift(ir, _lift_rows(zm), override=override, lift_where=_where(zm, later), chain=multi) as L, S.Path() as path:
-        m.simulate(db, span, method="first_order", deviation=True, plan=plan)
+        try:
+            m.simulate(db, span, method="first_order", deviation=True, plan=plan)
+        except S.SymbolicBranchError:
+            raise
+        except Exception as exc:
+            raise ApiRaised(f"{type(exc).__name__}: {str(exc)[:160]}") from exc
     if len(L.caps) != 1 and not multi:
         raise RuntimeError(f"{len(L.caps)} frames: multi-frame plans are outside the bound")
     if multi and len(L.caps) < 2:
         raise RuntimeError("a multi-frame structure ran in a single frame")
     return _merge_caps(L.caps), path
+
+
+class ApiRaised(Exception):
+    """the public call under test (Simultaneous.simulate with a plan) raised"""
 
 
 def _run_plain(ir, zm, m, nsim, override=None, later=False):
@@ -408,7 +430,7 @@ def main(run):
         "plans.simulation_plans.SimulationPlan.{exogenize_*,endogenize_*,get_registers_as_bool_arrays,check_consistency}",
         "reached through Simultaneous.simulate(plan=..., method='first_order')",
     ]
-    run.bounds["structures"] = ("zoo models nk3, ar2m, pc_const and loglin (a log-variable; first-order approximation of a non-linear model, compared in logs); span 4 periods; exactly identified plans with <=2 (variable,date) targets and <=2 "
+    run.bounds["structures"] = ("zoo models nk3, ar2m, pc_const, ar2m created with deterministic=True, and loglin (a log-variable; first-order approximation of a non-linear model, compared in logs); span 4 periods; exactly identified plans with <=2 (variable,date) targets and <=2 "
                                 "(shock,date) instruments inside the first 3 periods, unanticipated (instrument date <= target date) and anticipated "
                                 "(instruments at the start date, or at later dates with no unanticipated transition shock after the start: one frame); "
                                 "singular impact matrices skipped and counted; tier="
@@ -420,15 +442,23 @@ def main(run):
     run.outside += ["multi-frame plans beyond the two listed structures per model (frames are chained symbolically)",
                     "method='stacked_time' plans (see C06)", "singular or over/under-identified plans", "time-varying stds"]
     models = [_zm(n) for n in (("nk3", "ar2m", "pc_const", "loglin") if run.tier == "thorough" else ("nk3", "ar2m", "loglin"))]
+    models.append(_zm("ar2m_det"))
     nsim = 4
     for zm in models:
         m = _build(ir, zm)
-        for idx, spec in enumerate(_plans(zm, run.tier)):
+        plans = _plans(zm, run.tier)
+        if zm.name.endswith("_det"):
+            plans = plans[:3] if run.tier == "quick" else plans
+        for idx, spec in enumerate(plans):
             for fn in (check_plan, check_swap):
                 try:
                     fn(run, ir, zm, m, nsim, spec, idx)
                 except S.SymbolicBranchError as exc:
                     run.unknown(f"{fn.__name__}:{zm.name}:{idx}", exc)
+                except ApiRaised as exc:
+                    kind = "plan" if fn is check_plan else "swap"
+                    run.counterexample(f"{kind}:{zm.name}:{spec['mode']}:{spec['targets']}<-{spec['instruments']}", f"{kind}:{zm.name}:raises",
+                                       f"simulate(plan=...) raises {exc}", dict(kind=kind, model=zm.name, nsim=nsim, spec=spec, values={}))
                 except Exception as exc:
                     run.error(f"{fn.__name__}:{zm.name}:{idx}", exc)
     run.extra["exhaustive"] = True
@@ -462,7 +492,10 @@ def replay(case):
     if case["kind"] == "plan":
         dbp = db.copy()
         plan = _apply_plan(ir, m, span, start, dbp, spec, values=vals)
-        out = m.simulate(dbp, span, method="first_order", deviation=True, plan=plan)
+        try:
+            out = m.simulate(dbp, span, method="first_order", deviation=True, plan=plan)
+        except Exception as exc:
+            return True, f"simulate(plan=...) raises {type(exc).__name__}: {str(exc)[:160]}"
         for (v, k) in spec["targets"]:
             cmp(f"exogenized:{v}@{k}", cell(out, v, k), cell(dbp, v, k))
         endo = {(_instr_row(spec, e), k) for e, k in spec["instruments"]}
@@ -489,7 +522,10 @@ def replay(case):
             n = _instr_row(spec, e)
             (plan.endogenize_unanticipated if spec["mode"] == "u" else plan.endogenize_anticipated)(start + k, n)
             ser = dbp[n].copy(); ser[start + k] = vals.get(f"prior_{n}__{lab(k)}", 0.0625); dbp[n] = ser
-        out = m.simulate(dbp, span, method="first_order", deviation=True, plan=plan)
+        try:
+            out = m.simulate(dbp, span, method="first_order", deviation=True, plan=plan)
+        except Exception as exc:
+            return True, f"simulate(plan=...) raises {type(exc).__name__}: {str(exc)[:160]}"
         for (e, k) in spec["instruments"]:
             n = _instr_row(spec, e)
             cmp(f"recovered_shock:{n}@{k}", cell(out, n, k), cell(db, n, k))
